@@ -1,0 +1,55 @@
+//go:build verif
+
+package route
+
+import (
+	"sort"
+	"sync/atomic"
+)
+
+// Verification hooks for C06 (build tag verif): read-only views of the state shared between concurrent
+// lookups (glob cache internals, round-robin cursor, ring) and a handle on rrPicker. No behaviour is changed.
+// The dumps are meant to be called while no lookup is in flight.
+
+// VerifC06CacheDump returns the internals of a GlobCache: the keys of the map (sorted), the ring, head, count.
+func VerifC06CacheDump(c *GlobCache) (keys []string, l []string, h, n int) {
+	keys = []string{}
+	c.m.Range(func(k, _ interface{}) bool {
+		keys = append(keys, k.(string))
+		return true
+	})
+	sort.Strings(keys)
+	l = append([]string{}, c.l...)
+	return keys, l, c.h, c.n
+}
+
+// VerifC06Route returns the route for host/path (nil if there is none).
+func VerifC06Route(t Table, host, path string) *Route { return t.route(host, path) }
+
+// VerifC06Cursor reads the round-robin cursor of a route.
+func VerifC06Cursor(r *Route) uint64 { return atomic.LoadUint64(&r.total) }
+
+// VerifC06SetCursor sets the round-robin cursor of a route.
+func VerifC06SetCursor(r *Route, v uint64) { atomic.StoreUint64(&r.total, v) }
+
+// VerifC06TargetIndex returns the index of tg in r.Targets (-1 if absent).
+func VerifC06TargetIndex(r *Route, tg *Target) int {
+	for i, x := range r.Targets {
+		if x == tg {
+			return i
+		}
+	}
+	return -1
+}
+
+// VerifC06Ring returns, per slot of r.wTargets, the index of the target in r.Targets.
+func VerifC06Ring(r *Route) []int {
+	out := make([]int, 0, len(r.wTargets))
+	for _, tg := range r.wTargets {
+		out = append(out, VerifC06TargetIndex(r, tg))
+	}
+	return out
+}
+
+// VerifC06RRPick calls rrPicker once and returns the index in r.Targets of the target it handed out.
+func VerifC06RRPick(r *Route) int { return VerifC06TargetIndex(r, rrPicker(r)) }
